@@ -900,7 +900,7 @@ func (o *oracle) signature() string {
 		switch o.symptom {
 		case "next-out-of-order", "next-empty-but-pending", "next-not-pending", "drained-queue-leaves-records",
 			"rejected-though-not-full", "accepted-beyond-bound":
-			return "after-start-with-bound-below-pending:" + o.symptom
+			return "start-below-pending:" + o.symptom
 		}
 	}
 	switch o.symptom {
